@@ -251,6 +251,73 @@ func propC19(c *Ctx) {
 		}
 	})
 
+	// registration completeness: a create / update-metadata that succeeds has put EVERY listed
+	// channel under the challenger - each visited element is registered (SetAdmin on the very same
+	// port and channel, which R2 ties to the fresh-and-free checks) or is already administered by
+	// that challenger, and the list is walked to its end. An element skipped because an EQUAL
+	// (port, channel) element was registered earlier on the path (a map keyed by the whole
+	// element or by both fields) is covered by that registration.
+	c.Rule("C19.R7", func() {
+		list := "ophost/types/hook.hasPermChannels(cfg.Metadata).1.PermChannels"
+		po := PO{Params: []string{"h", "ctx", "bridgeId", "cfg"}, NoInline: []string{"hasPermChannels"}, Pure: []string{"hasPermChannels"}, Visits: 3}
+		for _, hn := range []string{"BridgeCreated", "BridgeMetadataUpdated"} {
+			fn := c.Method(hookPkg, "BridgeHook", hn)
+			o := c.Ob("C19.R7", hn+": every listed perm channel is registered to the challenger (or already administered by it) on every success path (no early exit, no skipped element)")
+			for _, p := range c.Paths(fn, po) {
+				o.Paths++
+				if !p.OK() || p.Panic {
+					continue
+				}
+				if !p.HasFact(len(p.Events), func(a *Term, pol bool) bool { return pol && a.Key() == "ophost/types/hook.hasPermChannels(cfg.Metadata).0" }) {
+					continue
+				}
+				o.Sites++
+				at := func(i int, want bool) bool {
+					return p.HasFact(len(p.Events), func(a *Term, pol bool) bool {
+						return pol == want && a.Op == "bin" && a.Name == "<" && a.Args[0].Key() == fmt.Sprint(i) && strip(a.Args[1]).Key() == "builtin.len("+list+")"
+					})
+				}
+				n := 0
+				for at(n, true) {
+					n++
+				}
+				if !at(n, false) {
+					o.Fail(c.W.Pos(fn.Pos()), fmt.Sprintf("success after %d channel(s) without reaching the end of the list: the remaining channels are not registered", n), c.Dump(p, -1))
+					continue
+				}
+				covered := make([]bool, n)
+				for i := 0; i < n; i++ {
+					el := fmt.Sprintf("%s[%d]", list, i)
+					for _, j := range p.Find(func(ev *Event) bool { return ev.Kind == EvCall }) {
+						ev := &p.Events[j]
+						na := len(ev.Call.Args)
+						if na < 3 || ev.Call.Args[na-3].Key() != el+".PortID" || ev.Call.Args[na-2].Key() != el+".ChannelID" {
+							continue
+						}
+						if strings.HasSuffix(ev.Call.Name, "PermKeeper).SetAdmin") {
+							covered[i] = true
+						}
+						if strings.HasSuffix(ev.Call.Name, "PermKeeper).HasAdminPermission") && p.factIs(len(p.Events), ev.Call.String()+".0", true) {
+							covered[i] = true
+						}
+					}
+				}
+				for i := 0; i < n; i++ {
+					if covered[i] {
+						continue
+					}
+					el := fmt.Sprintf("%s[%d]", list, i)
+					if !dupOfCovered(p, list, i, covered) {
+						o.Fail(c.W.Pos(fn.Pos()), "channel "+el+" is visited but neither registered to the challenger nor already administered by it", c.Dump(p, -1))
+					}
+				}
+			}
+			if o.Sites == 0 {
+				o.Fail(c.W.Pos(fn.Pos()), "no success path with perm channels", nil)
+			}
+		}
+	})
+
 	c.Rule("C19.R5", func() {
 		for _, hn := range []string{"BridgeCreated", "BridgeChallengerUpdated", "BridgeMetadataUpdated"} {
 			errorDiscipline(c, "C19.R5", "hook."+hn, c.Method(hookPkg, "BridgeHook", hn), PO{Params: []string{"h", "ctx", "bridgeId", "cfg"}, NoInline: []string{"hasPermChannels"}, Pure: []string{"hasPermChannels"}, Visits: 3})
@@ -350,3 +417,50 @@ func propC19(c *Ctx) {
 
 // decodedFromH: StringToBytes(h.ac, X).0 -> X
 func decodedFromH(t *Term) *Term { return decodedFrom(t) }
+
+// dupOfCovered: element i of list was skipped on p because a map probe keyed by the whole element
+// (or by both its port and its channel) answered "present", and every key ever put into that map
+// on the path has the same shape over an element whose registration is covered - so an element
+// with the same (port, channel) was registered earlier on this path.
+func dupOfCovered(p *Path, list string, i int, covered []bool) bool {
+	el := fmt.Sprintf("%s[%d]", list, i)
+	shape := func(k *Term, idx int) string {
+		return strings.ReplaceAll(k.Key(), fmt.Sprintf("%s[%d]", list, idx), list+"[#]")
+	}
+	ok := false
+	p.HasFact(len(p.Events), func(a *Term, pol bool) bool {
+		if ok || !pol || a.Op != "extract" || a.Name != "1" || a.Args[0].Op != "lookup" {
+			return false
+		}
+		lk := a.Args[0]
+		k := lk.Args[1]
+		ks := k.Key()
+		whole := ks == el || (strings.Contains(ks, el+".PortID") && strings.Contains(ks, el+".ChannelID"))
+		if !whole || strings.Contains(shape(k, i), list+"[") && strings.Contains(strings.ReplaceAll(shape(k, i), list+"[#]", ""), list+"[") {
+			return false
+		}
+		puts := 0
+		for _, ev := range p.Events {
+			if ev.Kind != EvMapUpdate || ev.Place == nil || ev.Place.Key() != lk.Args[0].Key() {
+				continue
+			}
+			good := false
+			for j := 0; j < len(covered); j++ {
+				if j != i && covered[j] && shape(ev.Cond, j) == shape(k, i) {
+					good = true
+				}
+			}
+			// the skipped element's own insertion (after its probe) does not matter
+			if !good && shape(ev.Cond, i) == shape(k, i) && ev.Cond.Key() == ks {
+				continue
+			}
+			if !good {
+				return false
+			}
+			puts++
+		}
+		ok = puts > 0
+		return false
+	})
+	return ok
+}
